@@ -20,6 +20,8 @@ type c07IntegArg struct {
 	Name    string            `json:"name"`
 	Outcome string            `json:"callee_outcome"`
 	Stale   map[string]string `json:"stale,omitempty"`
+	// dubbo: the attachments arrive the way the triple protocol delivers them (lower-cased keys, []string values)
+	Triple bool `json:"triple,omitempty"`
 }
 
 type c07IntegRes struct {
@@ -141,6 +143,15 @@ func runC07Integ(r *vc.Run, w *world.World, ch *vc.Child) {
 		for _, oc := range []string{"nil", "error"} {
 			add(c07IntegArg{Kind: kind, Side: "roundtrip", RealTx: true, Outcome: oc})
 		}
+		if kind == "dubbo" {
+			for _, x := range c07Xids(kind) {
+				add(c07IntegArg{Kind: kind, Side: "roundtrip", Xid: x, Outcome: "nil", Triple: true})
+				for _, k := range []string{"seata_xid", "tx_xid"} {
+					add(c07IntegArg{Kind: kind, Side: "server", Xid: x, Key: k, Outcome: "nil", Triple: true})
+				}
+			}
+			add(c07IntegArg{Kind: kind, Side: "roundtrip", RealTx: true, Outcome: "nil", Triple: true})
+		}
 		// a middle service: its outbound carrier already holds what it received from upstream (a different, stale xid)
 		if kind != "gin" {
 			stales := []map[string]string{{"tx_xid": "10.0.0.9:8091:555"}, {"TX_XID": "10.0.0.9:8091:555", "other": "v"}, {"seata_xid": "10.0.0.9:8091:555", "tx_xid": "10.0.0.9:8091:556"}}
@@ -169,6 +180,9 @@ func runC07Integ(r *vc.Run, w *world.World, ch *vc.Child) {
 	for _, j := range jobs {
 		a, res := j.a, j.res
 		shape := fmt.Sprintf("integ|%s|%s|key=%s|xid=%s|real=%v|callee=%s|stale=%d", a.Kind, a.Side, a.Key, xidClass(a.Xid), a.RealTx, a.Outcome, len(a.Stale))
+		if a.Triple {
+			shape += "|triple-attachments"
+		}
 		feat := map[string]string{"kind": a.Kind, "side": a.Side, "key": a.Key, "xid_class": xidClass(a.Xid), "real_tx": fmt.Sprint(a.RealTx)}
 		if j.err != nil {
 			r.Inconc(a.Case + ": control call failed: " + j.err.Error())
